@@ -83,3 +83,9 @@ package time
 // ---- determinism and thread-compatibility (C03, C05): no function of the package writes a
 // package-level variable at run time (what one execution left there another would read)
 //@ globals_readonly [C03,C05] none
+
+// t.in_location(zone) is the same instant in another zone (C19): equal to t, same hash, same
+// differences to every other time
+//@ func timeIn
+//@   prop C19
+//@   ensures same_instant: result1 == nil && typeis(recV, Time) ==> typeis(result0, Time) && inst(as(result0, Time)) == inst(as(recV, Time))
